@@ -495,7 +495,7 @@ impl Model for M {
 }
 
 pub fn variants(tier: Tier) -> Vec<(String, M, usize)> {
-    let d = tier.pick(6, 9);
+    let d = tier.pick(6, 10);
     let mut v = vec![
         ("handshake_a_wins".to_string(), M { a_wins: true, algos: vec!["aes128"], pool_cap: 4, max_restarts: 1, plain: false }, d),
         ("handshake_b_wins".to_string(), M { a_wins: false, algos: vec!["aes128"], pool_cap: 4, max_restarts: 1, plain: false }, d),
